@@ -252,7 +252,9 @@ def process_game_files(filenames, procfunc, overwrite=False, args=None):
       0 on success, 1 on failure.
     """
     has_errors = False
-    for fname, g in _games_for_filenames(filenames):
+    # (Load every cart before writing any: the output of one cart may have the
+    # file name of a later cart on the command line, e.g. "a.p8 a_fmt.p8".)
+    for fname, g in list(_games_for_filenames(filenames)):
         if g is None:
             has_errors = True
             continue
